@@ -38,7 +38,14 @@ func (x *g) genService(i int, used map[string]bool) {
 		}
 		sv.Errors = append(sv.Errors, e)
 		if !sv.NoHTTP {
-			sv.HTTPErrs = append(sv.HTTPErrs, &spec.HTTPError{Name: e.Name, Status: pickErrStatus(x.r)})
+			he := &spec.HTTPError{Name: e.Name, Status: pickErrStatus(x.r)}
+			if x.chance(1, 3) {
+				// an error response declared once for the service, inherited by the methods, whose message travels in
+				// a header named differently from the attribute
+				he.Headers = append(he.Headers, spec.Loc{Attr: "message", Wire: "X-Svc-Err-Message"})
+				x.s.AddFeature("error-header", "inherited-error-header")
+			}
+			sv.HTTPErrs = append(sv.HTTPErrs, he)
 		}
 		x.s.AddFeature("service-error")
 	}
@@ -133,9 +140,14 @@ func (x *g) genMethod(sv *spec.Service, j int, used map[string]bool) {
 		}
 		m.Payload = &spec.Attr{Type: &spec.Type{Kind: spec.Array, Elem: inner}}
 		x.s.AddFeature("payload-array", "payload-collection-of-collections-of-usertype")
-	case pk == 1 && x.o.Profile != "security":
-		// primitive / array / map payload
-		switch x.r.Intn(3) {
+	case (pk == 1 || pk == 2 && x.o.Profile == "openapi") && x.o.Profile != "security":
+		// primitive / array / map payload (the openapi profile draws primitives more often: they are the payloads that
+		// travel as a whole in one path, query or header parameter)
+		sel := x.r.Intn(3)
+		if pk == 2 {
+			sel = 0
+		}
+		switch sel {
 		case 0:
 			k := x.prim()
 			if k == spec.Any && x.o.Profile == "grpc" {
@@ -604,6 +616,11 @@ func (x *g) genHTTP(sv *spec.Service, m *spec.Method, idx int) {
 			k := rt.Kind
 			prim := spec.IsPrim(k) && k != spec.Any && k != spec.Bytes
 			switch {
+			case prim && x.o.Profile == "openapi" && m.Stream == "" && x.chance(2, 5):
+				// (the generated client of such a method does not compile — a listed C01 finding — the documents are
+				// judged all the same)
+				h.Headers = append(h.Headers, spec.Loc{Attr: "", Wire: "X-Val"})
+				x.s.AddFeature("payload-primitive-header")
 			case prim && x.chance(1, 3):
 				path += "/{val}"
 				h.Path = append(h.Path, spec.Loc{Attr: "", Wire: "val"})
